@@ -188,7 +188,7 @@ harness!(c03_default_uf, 6, {
 // purpose). Arbitrary parents over 3 keys; `same` must terminate and equal the closure of the edges.
 // The unwinding bound 2*|keys|+2 = 8 is an upper bound for any terminating walk, so an unwinding
 // assertion failure here IS the violation (confirmed natively: the replay must hang).
-//@ nonterm=violation
+//@ nonterm=violation enum_tape=3x5
 harness!(c04_uf_malformed3, 8, {
     let p: [u8; 3] = [below(3), below(3), below(3)];
     let uf = UnionFind::<ArrayMap<u8, Cell<u8>, 3>>::new(ArrayMap { keys: [0, 1, 2], vals: [Cell::new(p[0]), Cell::new(p[1]), Cell::new(p[2])] });
